@@ -213,10 +213,29 @@ def gb_case(draw):
         deps.append((name, arg))
         deps.append((name, "G"))
         users.append(use)
+    # a generic class whose type parameter carries the name of an ordinary class (legal; inside the generic class the name
+    # means the parameter, everywhere else the class), used by top-level code that needs the class's members: the analyser's
+    # per-class state must not outlive the class that happens to be visited last (seeded change C10-a4)
+    if draw(st.booleans()):
+        decls.append({"name": "Tok0", "text": "class Tok0 { public int tag = 5; public constructor() -> Tok0 { return this; } "
+                                              "public function more(int by) -> int { return this.tag + by; } }"})
+        decls.append({"name": "Cell0", "text": "class Cell0<Tok0> { public Tok0 v; public constructor(Tok0 x) -> Cell0<Tok0> { this.v = x; return this; } "
+                                               "public function get() -> Tok0 { return this.v; } }"})
+        decls.append({"name": "tk0", "text": "function tk0(Tok0 a) -> int { return a.more(1) + a.tag; }"})
+        users.append("Tok0 k0 = new Tok0(); Cell0<int> c0 = new Cell0<int>(35); echo(tk0(k0)); echo(k0.tag); echo(c0.get());")
+        deps.append(("tk0", "Cell0"))
+        deps.append(("main", "Cell0"))
+        last = [i for i in range(len(decls)) if decls[i]["name"] != "Cell0"]
+    else:
+        last = None
     decls.append({"name": "main", "text": "function main() -> void { " + " ".join(users) + " }"})
     n = len(decls)
     ident = list(range(n))
     perms = [ident, ident[::-1]] + [list(draw(st.permutations(ident))) for _ in range(4)]
+    if last is not None:
+        k = [i for i in range(n) if decls[i]["name"] == "Cell0"][0]
+        rest = list(draw(st.permutations([i for i in range(n) if i != k])))
+        perms += [rest + [k], [k] + rest]  # the class with the colliding type parameter analysed last, and first
     return {"kind": "rt", "family": "bounded_generics", "decls": decls, "deps": deps, "perms": perms}
 
 
